@@ -34,6 +34,12 @@ static int chan_type[CPU_CHAN_MAX] = {
 	[CPU_CHAN_THACT] = -1,
 };
 
+static const char *pcf_type_name[CPU_CHAN_MAX] = {
+	[CPU_CHAN_PID]   = "CPU: PID of the RUNNING thread",
+	[CPU_CHAN_TID]   = "CPU: TID of the RUNNING thread",
+	[CPU_CHAN_NRUN]  = "CPU: Number of RUNNING threads",
+};
+
 static long prv_flags[CPU_CHAN_MAX] = {
 	[CPU_CHAN_NRUN] = PRV_ZERO,
 };
@@ -166,6 +172,25 @@ cpu_connect(struct cpu *cpu, struct bay *bay, struct recorder *rec)
 		long flags = prv_flags[i];
 		if (prv_register(prv, row, type, bay, c, flags)) {
 			err("prv_register failed");
+			return -1;
+		}
+	}
+
+	return 0;
+}
+
+/* Declares in the PCF the event types emitted in the CPU trace */
+int
+cpu_create_pcf_types(struct pcf *pcf)
+{
+	for (int i = 0; i < CPU_CHAN_MAX; i++) {
+		int type = chan_type[i];
+
+		if (type == -1)
+			continue;
+
+		if (pcf_add_type(pcf, type, pcf_type_name[i]) == NULL) {
+			err("pcf_add_type failed");
 			return -1;
 		}
 	}
